@@ -29,7 +29,8 @@ package NoKV
 
 //@ func (*DB).GetVersionedEntry
 //@   trusted
-//@   tag ghost-pure
+//@   ghost defaultReads = (uint8(cf) == 0 ? defaultReads + 1 : defaultReads)
+//@   ghost lastDefaultReadTs = (uint8(cf) == 0 ? version : lastDefaultReadTs)
 //@   modifies nothing
 
 // C12: after recovery the oracle hands out timestamps strictly above everything
